@@ -577,9 +577,11 @@ fn run_case(seed: u64, idx: u64, tier: Tier, out: &mut CaseOut) {
     let avail = w.saturating_sub(if nest > 0 { 2 } else { 0 }).max(1);
     let content = gen_pre(&mut rng, avail);
     let pc = PreCase { content, nest };
-    for &width in &[w, w + 1, w.saturating_sub(1).max(1)] {
+    for &width in &[w, w + 1, w.saturating_sub(1).max(1), w + 8] {
+        // (a violation at one width - most often the recorded tagging finding - does not
+        // end the case: the other widths are judged as well)
         if !check_pre(out, &pc, width) {
-            return;
+            continue;
         }
         if interesting(&pc.content) {
             out.observe(crate::rng::hash_bytes(&ast::serialize(&pc.content, &mut Fmt::canonical())) ^ (width as u64) << 40);
